@@ -55,6 +55,12 @@ section .data
 ;;; *_mbinit are initial values for *_dispatched; is updated on first call.
 ;;; Therefore, *_dispatch_init is only executed on first call.
 
+%ifdef ISAL_CRYPTO_VERIF
+	;; verification hook: let a harness read and re-arm the binding and run the resolver alone
+	global _rolling_hash2_run_until_dispatched
+	global _rolling_hash2_run_until_mbinit
+	global _rolling_hash2_run_until_dispatch_init
+%endif
 _rolling_hash2_run_until_dispatched:
 	def_wrd      _rolling_hash2_run_until_mbinit
 
